@@ -15,6 +15,18 @@
       (Random exploration of `Model.PipelineN`, 2 partitions sharing 2 workers, M = 0..3, 20 000 runs: LogOrder holds
       for every partition in every run.)
     * `log_order_every_partition` - PROVED from `ProjSim`: for every partition, LogOrder.
+  Partial results towards `ProjSim` (all PROVED, each a single-step projection; they are not yet assembled along a run):
+    * Props/C02multiW.lean - worker level: `recv_proj_own`, `recv_proj_foreign` (stutter up to `stale`),
+      `handover_proj`, `handover_hidden` (the hidden sets).
+    * Props/C02multiS.lean - `WRel` (QRel + current worker + every worker's input projected by filtering + a relation
+      on the inner states), `proj_ppRecv_other` (no step), `proj_ppRecv_own` (the same `ppRecv`).
+    * Props/C02multiR.lean - `proj_bpRecv_own`: a worker takes a token of `p` = the `bpRecv` step of the projection
+      (inner state `projB`, same outcomes).
+  MISSING for `ProjSim`: the system-level step for a foreign token (a congruence of `BrokerProd.step` under "equal up
+  to `stale`"), hand-over / broker / deliver with hidden sets and pending answers, the answer step (`resp`: the two
+  passes of handleSuccess with several partitions in the set), the decidable side condition on the run (the projected
+  run satisfies `splitOKs`; no message of `p` held while a foreign set is handed over or answered; no foreign
+  connection error while `p`'s syn is in flight), and the induction along the run.
 -/
 import SaramaVerif.Model.PipelineN
 import SaramaVerif.Props.C02split
